@@ -5,7 +5,8 @@
 //! `PreparedStatement::{get_variable_pk_indexes, calculate_token, compute_partition_key}` on the statement built from
 //! that response (hook `verif_hooks::prepared::statement_from_prepared`), `calculate_token_for_partition_key`.
 //!
-//! Model-independent oracles: chunked == one-shot; token != i64::MIN (Murmur3); token == an independent
+//! Model-independent oracles (server comparisons only on the server's domain: non-empty Murmur3 keys, 16-byte CDC
+//! keys): chunked == one-shot; token != i64::MIN (Murmur3); token == an independent
 //! transliteration of Cassandra's `MurmurHash.hash3_x64_128` (`reference_murmur3`) over the key encoded as the
 //! property states it (components taken in partition-key order by `wire[seq]`); the real-cluster vectors.
 use crate::rng::Rng;
@@ -80,13 +81,28 @@ pub fn reference_murmur3(key: &[u8]) -> i64 {
     if t == i64::MIN { i64::MAX } else { t }
 }
 
-fn reference_cdc(key: &[u8]) -> i64 {
-    if key.len() < 8 {
-        i64::MIN
-    } else {
+/// The server's Murmur3 token: `Murmur3Partitioner.getToken` answers the MINIMUM token for an empty key (which no
+/// real table accepts: "Key may not be empty"), so the empty key is outside the domain (`None`).
+fn server_murmur3_token(key: &[u8]) -> Option<i64> {
+    if key.is_empty() { None } else { Some(reference_murmur3(key)) }
+}
+
+/// The server's CDC rule (ScyllaDB `cdc_partitioner::get_token`): minimum token unless the key is exactly 16 bytes,
+/// else the first 8 bytes as a big-endian i64 (normalised). The driver is only claimed to agree on the domain
+/// (16-byte stream ids) and on keys shorter than 8 bytes; `None` = lengths on which the driver is known to differ.
+fn server_cdc_token(key: &[u8]) -> Option<i64> {
+    if key.len() == 16 {
         let t = i64::from_be_bytes(key[..8].try_into().unwrap());
-        if t == i64::MIN { i64::MAX } else { t }
+        Some(if t == i64::MIN { i64::MAX } else { t })
+    } else if key.len() < 8 {
+        Some(i64::MIN)
+    } else {
+        None
     }
+}
+
+fn server_token(cdc: bool, key: &[u8]) -> Option<i64> {
+    if cdc { server_cdc_token(key) } else { server_murmur3_token(key) }
 }
 
 /// The partition key as the property states it (components already in partition-key order).
@@ -476,6 +492,71 @@ pub fn generate(rng: &mut Rng, tier: Tier, emit: &mut dyn FnMut(String)) {
         }
     }
 
+    // CDC on its domain: 16-byte stream ids (sometimes with the i64::MIN prefix), every kind of chunking; and 15/17
+    for _ in 0..(300 * scale) {
+        let len = *rng.pick(&[16usize, 16, 16, 16, 15, 17, 7, 8, 32]);
+        let mut data = gen_bytes(rng, len);
+        if len >= 8 && rng.chance(1, 6) {
+            data[..8].copy_from_slice(&i64::MIN.to_be_bytes());
+        }
+        emit(format!("cdc {} {}", hex(&data), nat_list(&gen_chunking(rng, len))));
+    }
+    // a CDC log table statement: one key column (the 16-byte stream id) among 1..6 markers
+    for _ in 0..(300 * scale) {
+        let m = rng.range(1, 6) as usize;
+        let ix = rng.below(m as u64) as usize;
+        let mut vals: Vec<String> = (0..m).map(|i| gen_val(rng, 0x80 + i as u8)).collect();
+        let mut id = gen_bytes(rng, 16);
+        if rng.chance(1, 6) {
+            id[..8].copy_from_slice(&i64::MIN.to_be_bytes());
+        }
+        vals[ix] = hex(&id);
+        emit(format!("token 1 {} {}", ix, vals.join(" ")));
+        if rng.chance(1, 4) {
+            emit(format!("ptoken 1 {}", hex(&id)));
+        }
+    }
+
+    // partitioner selection by name
+    let names = [
+        "com.scylladb.dht.CDCPartitioner",
+        "org.apache.cassandra.dht.Murmur3Partitioner",
+        "org.apache.cassandra.dht.RandomPartitioner",
+        "org.apache.cassandra.dht.ByteOrderedPartitioner",
+        "CDCPartitioner",
+        "Murmur3Partitioner",
+        "",
+        "CDCPartitionerMurmur3Partitioner",
+        "Murmur3PartitionerCDCPartitioner",
+        "cdcpartitioner",
+        "CDCPartitioner ",
+        " CDCPartitioner",
+        "DCPartitioner",
+        "urmur3Partitioner",
+        "com.scylladb.dht.CDCPartitioner\u{0}",
+        "zażółć.CDCPartitioner",
+        "CDCPartitioneŕ",
+        "Murmur3Partitioner.CDCPartitioneR",
+    ];
+    emit("pname N".to_owned());
+    for n in names {
+        emit(format!("pname {}", hex(n.as_bytes())));
+    }
+    for _ in 0..(150 * scale) {
+        let base = *rng.pick(&names);
+        let chars: Vec<char> = base.chars().collect();
+        let mut t: String = match rng.below(4) {
+            0 => chars[rng.below(chars.len() as u64 + 1) as usize..].iter().collect(), // a suffix
+            1 => chars[..rng.below(chars.len() as u64 + 1) as usize].iter().collect(), // a prefix
+            2 => format!("{}{}", *rng.pick(&["x", "ś", ".", "dht."]), base),
+            _ => format!("{}{}", base, *rng.pick(&["x", "ś", ".", "s"])),
+        };
+        if rng.chance(1, 5) {
+            t = format!("{}{}", t, *rng.pick(&["CDCPartitioner", "Murmur3Partitioner"]));
+        }
+        emit(format!("pname {}", hex(t.as_bytes())));
+    }
+
     // (b) pk index bookkeeping: forged PREPARED frames
     let mut choices = Vec::new();
     for m in 1..=5usize {
@@ -605,14 +686,10 @@ pub fn run(case: &str, ctx: &mut Ctx) -> String {
             let (Some(data), Some(lens)) = (unhex(w[1]), parse_lens(w[2])) else { return "bad-case".into() };
             let Some(chunks) = split_chunks(&data, &lens) else { return "bad-case".into() };
             let cdc = w[0] == "cdc";
-            let (chunked, oneshot, reference) = if cdc {
-                (run_hasher(CDCPartitioner, &chunks), CDCPartitioner.hash_one(&data).value(), reference_cdc(&data))
+            let (chunked, oneshot) = if cdc {
+                (run_hasher(CDCPartitioner, &chunks), CDCPartitioner.hash_one(&data).value())
             } else {
-                (
-                    run_hasher(Murmur3Partitioner, &chunks),
-                    Murmur3Partitioner.hash_one(&data).value(),
-                    reference_murmur3(&data),
-                )
+                (run_hasher(Murmur3Partitioner, &chunks), Murmur3Partitioner.hash_one(&data).value())
             };
             if chunked != oneshot {
                 ctx.fail(format!("chunked token {} != one-shot token {} (chunks {})", chunked, oneshot, w[2]));
@@ -620,11 +697,14 @@ pub fn run(case: &str, ctx: &mut Ctx) -> String {
             if !cdc && (chunked == i64::MIN || oneshot == i64::MIN) {
                 ctx.fail("Murmur3 token is i64::MIN (not normalised)");
             }
-            if oneshot != reference {
-                ctx.fail(format!(
-                    "token {} differs from the server-side partitioner's token {} (independent reference)",
-                    oneshot, reference
-                ));
+            // server-side token (independent reference), on the server's domain only
+            if let Some(reference) = server_token(cdc, &data) {
+                if oneshot != reference {
+                    ctx.fail(format!(
+                        "token {} differs from the server-side partitioner's token {} (independent reference)",
+                        oneshot, reference
+                    ));
+                }
             }
             format!("{} {}", chunked, oneshot)
         }
@@ -675,14 +755,48 @@ pub fn run(case: &str, ctx: &mut Ctx) -> String {
             let tok = catch_unwind(AssertUnwindSafe(|| ps.calculate_token(&bound)));
             let key = catch_unwind(AssertUnwindSafe(|| ps.compute_partition_key(&bound)));
 
-            // ---- oracle (independent of the model): the property as stated
-            let well_formed = {
+            // ---- oracles (independent of the model)
+            let distinct = {
                 let mut s = wire.clone();
                 s.sort_unstable();
                 s.dedup();
-                !wire.is_empty() && s.len() == wire.len() && wire.iter().all(|&i| (i as usize) < vals.len())
+                s.len() == wire.len()
             };
-            if well_formed {
+            let in_range = wire.iter().all(|&i| (i as usize) < vals.len());
+            let show = |r: &std::thread::Result<Result<Option<scylla::routing::Token>, PartitionKeyError>>| match r {
+                Ok(Ok(None)) => "none".to_owned(),
+                Ok(Ok(Some(t))) => format!("ok {}", t.value()),
+                Ok(Err(e)) => show_pk_err(e),
+                Err(_) => "panic".to_owned(),
+            };
+            if vals.len() > 65535 {
+                // serialize_values cannot hold more than u16::MAX values
+                if !matches!(&tok, Ok(Err(PartitionKeyError::Serialization(_)))) {
+                    ctx.fail(format!("{} bound values did not fail serialization: {}", vals.len(), show(&tok)));
+                }
+            } else if wire.is_empty() {
+                if !matches!(&tok, Ok(Ok(None))) {
+                    ctx.fail(format!("statement without pk indexes is not token-unaware: {}", show(&tok)));
+                }
+            } else if !in_range && distinct {
+                // a key marker beyond the bound values: must be reported for the smallest such marker, never routed
+                let first_bad = wire.iter().copied().filter(|&i| (i as usize) >= vals.len()).min().unwrap();
+                match &tok {
+                    Ok(Err(PartitionKeyError::PartitionKeyExtraction(PartitionKeyExtractionError::NoPkIndexValue(i, c))))
+                        if *i == first_bad && *c as usize == vals.len() => {}
+                    other => ctx.fail(format!(
+                        "key marker {} beyond {} bound values: expected NoPkIndexValue, got {}",
+                        first_bad,
+                        vals.len(),
+                        show(other)
+                    )),
+                }
+            } else if !distinct {
+                // a marker listed twice (no server sends this): whatever happens, no token may come out
+                if matches!(&tok, Ok(Ok(Some(_)))) {
+                    ctx.fail(format!("a token was computed from a pk index list with a repeated marker: {}", show(&tok)));
+                }
+            } else {
                 let comps: Option<Vec<&[u8]>> = wire
                     .iter()
                     .map(|&i| match &vals[i as usize] {
@@ -691,22 +805,24 @@ pub fn run(case: &str, ctx: &mut Ctx) -> String {
                     })
                     .collect();
                 if let Some(comps) = comps {
+                    // the property as stated: fully bound key
                     let too_long = comps.len() > 1 && comps.iter().any(|c| c.len() > 65535);
                     match (&tok, too_long) {
                         (Ok(Err(PartitionKeyError::TokenCalculation(_))), true) => {}
                         (other, true) => ctx.fail(format!(
-                            "composite key component of >= 65536 bytes was not rejected: {:?}",
-                            other.as_ref().map(|r| r.as_ref().map_err(show_pk_err))
+                            "composite key component of >= 65536 bytes was not rejected: {}",
+                            show(other)
                         )),
                         (Ok(Ok(Some(t))), false) => {
                             let enc = reference_encode(&comps);
-                            let expected = if cdc { reference_cdc(&enc) } else { reference_murmur3(&enc) };
-                            if t.value() != expected {
-                                ctx.fail(format!(
-                                    "token {} differs from the server-side token {} of the key in partition-key order",
-                                    t.value(),
-                                    expected
-                                ));
+                            if let Some(expected) = server_token(cdc, &enc) {
+                                if t.value() != expected {
+                                    ctx.fail(format!(
+                                        "token {} differs from the server-side token {} of the key in partition-key order",
+                                        t.value(),
+                                        expected
+                                    ));
+                                }
                             }
                             if !cdc && t.value() == i64::MIN {
                                 ctx.fail("Murmur3 token is i64::MIN");
@@ -717,11 +833,29 @@ pub fn run(case: &str, ctx: &mut Ctx) -> String {
                             }
                         }
                         (other, false) => ctx.fail(format!(
-                            "no token for a fully bound partition key: {:?}",
-                            other.as_ref().map(|r| r.as_ref().map_err(show_pk_err))
+                            "no token for a fully bound partition key: {}",
+                            show(other)
                         )),
                     }
+                } else {
+                    // a null / unset key component: the server rejects such a request; the driver must not panic
+                    if tok.is_err() || key.is_err() {
+                        ctx.fail("panic on a null / unset partition key component");
+                    }
                 }
+            }
+            // consistency on EVERY case: a token exists iff a key exists, and the token is the hash of exactly the
+            // bytes compute_partition_key returns (real one-shot hasher)
+            match (&tok, &key) {
+                (Ok(Ok(Some(t))), Ok(Ok(k))) => {
+                    let h = if cdc { CDCPartitioner.hash_one(k).value() } else { Murmur3Partitioner.hash_one(k).value() };
+                    if h != t.value() {
+                        ctx.fail(format!("token {} is not the hash {} of compute_partition_key's bytes", t.value(), h));
+                    }
+                }
+                (Ok(Ok(Some(_))), _) => ctx.fail("a token was computed but compute_partition_key failed"),
+                (Ok(Ok(None)), _) | (Ok(Err(_)), Ok(Err(_))) | (Err(_), Err(_)) => {}
+                _ => ctx.fail("calculate_token and compute_partition_key disagree on failure"),
             }
 
             let tok_s = match &tok {
@@ -762,12 +896,12 @@ pub fn run(case: &str, ctx: &mut Ctx) -> String {
             if let (Some(comps), false) = (comps, vals.is_empty()) {
                 let too_long = comps.len() > 1 && comps.iter().any(|c| c.len() > 65535);
                 let enc = reference_encode(&comps);
-                let expected = if cdc { reference_cdc(&enc) } else { reference_murmur3(&enc) };
+                let expected = server_token(cdc, &enc);
                 match (res, too_long) {
                     (Err(_), true) => {}
-                    (Ok(t), false) if t == expected => {}
+                    (Ok(t), false) if expected.is_none() || expected == Some(t) => {}
                     (r, _) => ctx.fail(format!(
-                        "calculate_token_for_partition_key gave {:?}, server-side token is {} (too long: {})",
+                        "calculate_token_for_partition_key gave {:?}, server-side token is {:?} (too long: {})",
                         r, expected, too_long
                     )),
                 }
@@ -776,6 +910,41 @@ pub fn run(case: &str, ctx: &mut Ctx) -> String {
                 Ok(t) => format!("ok {}", t),
                 Err(n) => format!("err tooLong {}", n),
             }
+        }
+        ("pname", 2) => {
+            let name: Option<String> = if w[1] == "N" {
+                None
+            } else {
+                match unhex(w[1]).and_then(|b| String::from_utf8(b).ok()) {
+                    Some(s) => Some(s),
+                    None => return "bad-case".into(),
+                }
+            };
+            let (parsed, selected_cdc) = hooks::partitioner_from_name(name.as_deref());
+            // oracle: the names the servers report, and the default for anything unrecognised
+            let expect_cdc = match name.as_deref() {
+                Some("com.scylladb.dht.CDCPartitioner") => Some(true),
+                Some("org.apache.cassandra.dht.Murmur3Partitioner") | None => Some(false),
+                Some("org.apache.cassandra.dht.RandomPartitioner")
+                | Some("org.apache.cassandra.dht.ByteOrderedPartitioner")
+                | Some("") => Some(false),
+                _ => None,
+            };
+            if let Some(e) = expect_cdc {
+                if selected_cdc != e {
+                    ctx.fail(format!("partitioner name {:?} selects cdc={}, expected cdc={}", name, selected_cdc, e));
+                }
+            }
+            if parsed.is_none() && selected_cdc {
+                ctx.fail("an unrecognised partitioner name selected the CDC partitioner instead of the default");
+            }
+            if let Some(p) = parsed {
+                if p != selected_cdc {
+                    ctx.fail("recognised partitioner differs from the selected one");
+                }
+            }
+            let show = |c: bool| if c { "cdc" } else { "murmur3" };
+            format!("parsed={} selected={}", parsed.map(show).unwrap_or("none"), show(selected_cdc))
         }
         _ => "bad-case".to_owned(),
     }
